@@ -53,17 +53,17 @@ def c01(scn, obs):
                 and a.get('api') in ('run', 'reset') and b.get('res') == 'MachineError':
             if a['state'] != b['state']:
                 bad.append((f'refused-changed-state:{a["api"]}', f'refused {a["api"]} changed state {a["state"]} -> {b["state"]}'))
-    # a run/reset that the state does not allow is refused WITH AN ERROR
+    # a run/reset that the state does not allow is refused WITH AN ERROR: if the state was never
+    # one that allows the request between the call and its normal return, it was wrongly accepted
     for i, a in enumerate(obs):
-        if a.get('k') == 'call' and a.get('api') in ('run', 'reset'):
+        if a.get('k') == 'call' and a.get('api') in ('run', 'reset', 'run_and_continue', 'run_session', 'run_continue_and_wait'):
             ret = next((b for b in obs[i + 1:] if b.get('k') == 'ret' and b.get('task') == a['task'] and b.get('api') == a['api']), None)
-            if ret is None:
+            if ret is None or ret['res'] != 'ok':
                 continue
-            nxt = obs[i + 1] if i + 1 < len(obs) else None
-            immediate = nxt is ret
-            allowed = {'run': ('initialized',), 'reset': ('initialized', 'finished')}[a['api']]
-            if immediate and ret['res'] == 'ok' and a['state'] not in allowed:
-                bad.append((f'invalid-accepted:{a["api"]}@{a["state"]}', f'{a["api"]}() in state {a["state"]} returned without error'))
+            allowed = ('initialized', 'finished') if a['api'] == 'reset' else ('initialized',)
+            seen = {o.get('state') for o in obs[i:ret['i'] + 1]}
+            if not (seen & set(allowed)):
+                bad.append((f'invalid-accepted:{a["api"]}@{a["state"]}', f'{a["api"]}() issued in state {a["state"]} returned without error although the state was never one of {allowed}'))
     return bad
 
 
